@@ -412,19 +412,21 @@ func Catalogue(k int) *types.Type {
 		return TObjBA
 	case 13:
 		return types.List(TObjAB)
-	// TC2
 	case 14:
-		return types.List(types.Str)
+		return types.Map(types.Str, TObjAB)
 	case 15:
-		return types.Map(types.Bottom, types.Bottom)
+		return types.Maybe(TObjBA)
+	// TC2
 	case 16:
-		return types.Maybe(types.List(types.Num))
+		return types.List(types.Str)
 	case 17:
+		return types.Map(types.Bottom, types.Bottom)
+	case 25:
+		return types.Maybe(types.List(types.Num))
+	case 19:
 		return types.Maybe(ObjT([]string{"a"}, []*types.Type{types.Num}))
 	case 18:
 		return types.List(types.List(types.Num))
-	case 19:
-		return types.Map(types.Str, TObjAB)
 	case 20:
 		return ObjT([]string{"a", "b", "c"}, []*types.Type{types.Num, types.Str, types.Bool})
 	case 21:
@@ -440,8 +442,8 @@ func Catalogue(k int) *types.Type {
 	}
 }
 
-const TC1 = 14
-const TC2 = 26
+const TC1 = 16
+const TC2 = 27
 
 func CatalogueSize() int {
 	if sv.Thorough() {
